@@ -4,13 +4,14 @@ import Comdex.Base.Dec
 
 Sources (read-only tree /repo):
 * generation 1 `x/liquidation`: `keeper/liquidate_vaults.go:15-104` (sweep), `:106-137` (CreateLockedVault),
-  `keeper/msg_server.go:25-91` (MsgLiquidateVault), `keeper/liquidate_borrow.go:14-163` (borrow sweep: decision and
-  offset bookkeeping only), `types/liquidations.go:21-31` (GetSliceStartEndForLiquidations), `abci.go`;
-  auction start `x/auction/keeper/dutch.go:22-162`.
+  `keeper/msg_server.go:25-91` (MsgLiquidateVault), `:92-199` (MsgLiquidateBorrow), `keeper/liquidate_borrow.go:14-163` (borrow
+  sweep, complete), `:166-198` (CreateLockedBorrow), `:200-352` (UpdateLockedBorrows), `types/liquidations.go:21-31`
+  (GetSliceStartEndForLiquidations), `abci.go`; auction starts `x/auction/keeper/dutch.go:22-162`, `dutch_lend.go:18-133`.
 * generation 2 `x/liquidationsV2`: `keeper/liquidate.go:15-32` (Liquidate), `:37-82` (vault sweep), `:84-167`
-  (LiquidateIndividualVault), `:174-228` (CreateLockedVault), `:237-263` (borrow sweep), `:265-356` (borrow decision),
-  `:358-404` (UpdateLockedBorrows), `:406-420` (MsgLiquidate), `types/offset.go:19-29`, `keeper/offset.go`;
-  auction start `x/auctionsV2/keeper/auctions.go:16-102`.
+  (LiquidateIndividualVault), `:174-228` (CreateLockedVault, incl. the English branch), `:237-263` (borrow sweep), `:265-356`
+  (borrow decision), `:358-404` (UpdateLockedBorrows), `:406-420` (MsgLiquidate), `:549-601` (MsgAppReserveFundsFn), `:681-720`
+  (MsgLiquidateExternal), `types/params.go:55-66` (batch-size validator), `types/offset.go:19-29`, `keeper/offset.go`;
+  auction start `x/auctionsV2/keeper/auctions.go:16-140` (Dutch and English activators).
 * `x/vault/keeper/vault.go:300-373` CalculateCollateralizationRatio, `x/market/keeper/oracle.go:167-179` CalcAssetPrice,
   `x/lend/keeper/rates.go:30-47`, `types/utils.go:246-264` ApplyFuncIfNoError.
 
@@ -55,12 +56,16 @@ structure App where
   dutch2 : Bool := false   -- generation 2: IsDutchActivated
   wl1 : Bool := false      -- generation 1: app id whitelisted for liquidation
   auc1 : Bool := false     -- generation 1: auction params found for the app
+  english2 : Bool := false -- generation 2: IsEnglishActivated
+  lendAuc1 : Bool := false -- generation 1: x/lend auction params (`GetAddAuctionParamsData`) found for the app
 deriving Repr, DecidableEq, Inhabited
 
 structure Env where
   assets : List Asset := []
   products : List Product := []
   apps : List App := []
+  /-- x/auctionsV2 `AuctionParams` when found: (`LiquidationPenalty`, `AuctionBonus`) — used by the external-keeper message only -/
+  aucParams2 : Option (Dec × Dec) := none
 deriving Repr, Inhabited
 
 def Env.asset? (e : Env) (id : Nat) : Option Asset := e.assets.find? (·.id == id)
@@ -166,6 +171,11 @@ structure Borrow where
   cAsset : Nat := 0
   lendId : Nat := 0
   outPool : Nat := 0
+  /-- generation 1 sell-off: `Ltv` of the collateral asset and of the two transit assets, `ELiquidationPenalty` -/
+  ltv : Dec := 0
+  ltvFirst : Dec := 0
+  ltvSecond : Dec := 0
+  epen : Dec := 0
 deriving Repr, DecidableEq, Inhabited
 
 /-- the debt the decision looks at: `AmountOut + InterestAccumulated.TruncateInt()` after the accrual -/
@@ -248,6 +258,8 @@ structure Auction where
   amount : Int
   /-- the debt the auction is to raise (`DebtToken` = locked vault's `TargetDebt`; generation 1 `InflowTokenTargetAmount`) -/
   target : Int := 0
+  /-- generation 2 `AuctionType`: true = Dutch, false = English (generation 1: always Dutch) -/
+  dutch : Bool := true
 deriving Repr, DecidableEq, Inhabited
 
 structure Locked where
@@ -267,6 +279,8 @@ structure Locked where
   cr : Dec := 0
   /-- `CollateralToBeAuctioned`: generation 1 the collateral's VALUE (a `Dec`), generation 2 the amount (an integer) -/
   collValue : Dec := 0
+  /-- generation 2 `IsInternalKeeper` (seizure initiated by a liquidate message; the sender is recorded as keeper) -/
+  viaMsg : Bool := false
 deriving Repr, DecidableEq, Inhabited
 
 /-- what is written on the locked vault and the auction besides the collateral -/
@@ -298,6 +312,10 @@ structure World where
   lendBal : Bal := []                -- lend positions: id ↦ `AmountIn.Amount` (absent = deleted)
   totalLend : Bal := []              -- `PoolAssetLBMapping.TotalLend` by `statKey pool asset`
   totalBorrowed : Bal := []          -- `PoolAssetLBMapping.TotalBorrowed` by `statKey pool asset`
+  lendAuctionId : Nat := 0           -- generation 1: x/auction `LendAuctionID` (borrow auctions have their own counter)
+  reserveBal : Bal := []             -- generation 1: x/lend module account (reserve), by asset id
+  appReserve : Bal := []             -- generation 2: `AppReserveFunds.TokenQuantity` by `statKey app asset`
+  liqBal : Bal := []                 -- generation 2: x/liquidationsV2 module account, by asset id
 deriving Repr, Inhabited
 
 /-- `ApplyFuncIfNoError`: cache context written back only on success; a panic is turned into an error -/
@@ -403,8 +421,7 @@ def vaultPass (batch : Nat) (key : Nat) (off : Nat) (f : Vault → World → Opt
 /-- generation 2 `LiquidateIndividualBorrow` + `UpdateLockedBorrows` for one borrow (liquidate.go:265-404).
 `none` = error; both callers discard the writes of a failing step (the sweep wraps every borrow in
 `ApplyFuncIfNoError` since fix c15713f, a message runs in a transaction), so only complete steps are visible.
-Only what the property speaks about is kept: flag, collateral custody, locked vault, auction.
-English auctions are never enabled in the harness, so `AuctionType = false` ends in the error of liquidate.go:212. -/
+Only what the property speaks about is kept: flag, collateral custody, locked vault, auction (with its type). -/
 def liquidateBorrowV2 (e : Env) (id : Nat) (w : World) : Option World :=
   match w.borrows.find? (·.id == id) with
   | none => none
@@ -419,9 +436,11 @@ def liquidateBorrowV2 (e : Env) (id : Nat) (w : World) : Option World :=
         if !a.wl2 then none else
         if w.poolBal.get b.assetIn < b.amountIn then none else
         if w.poolBal.get b.cAsset < b.amountIn then none else     -- the cTokens are burnt from the pool account
-        -- CreateLockedVault with AuctionType = IsDutchActivated; the Dutch activator needs both oracle records active
-        if !a.dutch2 then none else
-        if !(e.priceActive b.assetIn && e.priceActive b.assetOut) then none else
+        -- CreateLockedVault with AuctionType = IsDutchActivated: Dutch when activated (its activator needs both oracle
+        -- records active), otherwise English when THAT is activated (liquidate.go:210-215; `EnglishAuctionActivator` reads no
+        -- price), otherwise the error of liquidate.go:213 — nothing is seized when no auction type is enabled
+        if !a.dutch2 && !a.english2 then none else
+        if a.dutch2 && !(e.priceActive b.assetIn && e.priceActive b.assetOut) then none else
         -- liquidate.go:372-375, 386: fee and bonus on the PRINCIPAL, debt token = principal (the accrued interest is not auctioned)
         let fee := Dec.truncateInt (Dec.mul (Dec.ofInt b.principal) b.pen)
         let bonus := Dec.truncateInt (Dec.mul (Dec.ofInt b.principal) b.bon)
@@ -435,7 +454,7 @@ def liquidateBorrowV2 (e : Env) (id : Nat) (w : World) : Option World :=
           newLocked := w.newLocked ++ [{ id := w.lockedId + 1, orig := b.id, app := b.app, amountIn := b.amountIn, isBorrow := true,
                                          debt := b.principal, target := b.principal + fee, fee := fee, bonus := bonus, cr := r, collValue := b.amountIn }]
           newAuctions := w.newAuctions ++ [{ id := w.auctionId + 1, locked := w.lockedId + 1, asset := b.assetIn, amount := b.amountIn,
-                                             target := b.principal + fee }]
+                                             target := b.principal + fee, dutch := a.dutch2 }]
           -- :392-402 pool totals and the lend position shrink by exactly what left
           totalBorrowed := w.totalBorrowed.add (statKey b.outPool b.assetOut) (- b.principal)
           totalLend := w.totalLend.add (statKey b.pool b.assetIn) (- b.amountIn)
@@ -486,19 +505,6 @@ def appsLoopV1 (e : Env) (batch : Nat) : List App → World → Option World
 
 /-- the lend app id under which generation 1 keeps the borrow-sweep offset (`lendtypes.AppID`) -/
 def lendAppId : Nat := 3
-
-/-- generation 1 BeginBlocker: vault sweep, then the borrow sweep's offset bookkeeping (its per-borrow sell-off is
-not modelled; the harness has no borrows in generation-1 runs). -/
-def blockV1 (e : Env) (batch : Nat) (w : World) : Outcome :=
-  match appsLoopV1 e batch (e.apps.filter (·.wl1)) w with
-  | none => .panic
-  | some w1 =>
-    let off := (w1.offsets.get? lendAppId).getD 0
-    let n := w1.borrows.length
-    let b := sweepBoundsI (n : Int) (toGoInt off) (toGoInt batch)
-    match goSlice w1.borrows b.1 b.2 with
-    | none => .panic
-    | some _ => .ok { w1 with offsets := w1.offsets.set lendAppId b.2.toNat }
 
 /-! ## generation 1: the borrow sell-off (`UpdateLockedBorrows`, liquidate_borrow.go:196-351)
 
@@ -558,6 +564,170 @@ def sellOffV1 (i : SellOffIn) : Option SellOffOut :=
          totalDeduction := totalDeduction
          newAmountIn := if totalDeduction ≥ i.amountIn then 0 else i.amountIn - totalDeduction
          lendReduction := if totalDeduction ≥ i.amountIn then i.amountIn else totalDeduction }
+
+/-! ## generation 1: borrow liquidation end to end (`LiquidateBorrows` sweep, `MsgLiquidateBorrow`)
+
+liquidate_borrow.go:33-158 (sweep body inside `ApplyFuncIfNoError`), msg_server.go:92-199 (message), `CreateLockedBorrow`,
+`UpdateLockedBorrows` (the sell-off above), `x/auction LendDutchActivator` / `StartLendDutchAuction` (dutch_lend.go:18-133).
+Generation 1 has NO whitelisting for borrows; the only guard is the kill switch of the lend position's app. -/
+
+/-- the threshold generation-1 `MsgLiquidateBorrow` compares with (msg_server.go:153,170,185): ALWAYS
+`LiquidationThreshold` — the pair's e-mode is ignored, where the sweep (liquidate_borrow.go:82-85) and generation 2 use
+`ELiquidationThreshold` for an e-mode pair -/
+def borrowThresholdMsgV1 (b : Borrow) : Dec :=
+  match b.bridge with
+  | .same => b.lt
+  | .first => Dec.mul b.lt b.ltFirst
+  | .second => Dec.mul b.lt b.ltSecond
+
+/-- the test of generation-1 `MsgLiquidateBorrow`: the e-mode of the pair is ignored -/
+def borrowUnsafeMsgV1 (e : Env) (b : Borrow) : Bool :=
+  match borrowRatio e b with
+  | some r => decide (r > borrowThresholdMsgV1 b)
+  | none => false
+
+/-- inputs of the sell-off for borrow `b` (liquidate_borrow.go:219-264): `c` = `Ltv` (× transit asset's `Ltv`), penalty =
+`ELiquidationPenalty` in e-mode -/
+def Borrow.sellOffIn (e : Env) (b : Borrow) : Option SellOffIn :=
+  match e.asset? b.assetIn, e.asset? b.assetOut with
+  | some ai, some ao =>
+    match ai.price, ao.price with
+    | some pi, some po =>
+      some { amountIn := b.amountIn, updatedOut := b.debt, pIn := pi, pOut := po, dIn := ai.decimals, dOut := ao.decimals,
+             c := (match b.bridge with
+                   | .same => b.ltv
+                   | .first => Dec.mul b.ltv b.ltvFirst
+                   | .second => Dec.mul b.ltv b.ltvSecond),
+             pen := if b.emode then b.epen else b.pen, bon := b.bon }
+    | _, _ => none
+  | _, _ => none
+
+/-- `CreateLockedBorrow` + `UpdateLockedBorrows` + `LendDutchActivator` for the unflagged borrow `b` judged unsafe at ratio `r`.
+`none` = error / panic somewhere (both callers then drop all writes). `sweep` = called from the block hook (which also
+reduces `TotalBorrowed`, liquidate_borrow.go:111 — the message does not). -/
+def seizeBorrowV1 (e : Env) (sweep : Bool) (b : Borrow) (r : Dec) (w : World) : Option World :=
+  match b.sellOffIn e with
+  | none => none
+  | some i =>
+    match sellOffV1 i with
+    | none => none
+    | some o =>
+      -- bank: pool → auction account, pool → reserve (x/lend module account), cTokens burnt from the pool account
+      if w.poolBal.get b.assetIn < o.toAuction + o.toReserve then none else
+      if w.poolBal.get b.cAsset < o.totalDeduction then none else
+      -- LendDutchActivator: unit values of both assets (division by a zero unit value panics), the app's x/lend auction params
+      let aipIn := assetValue 1 i.pIn i.dIn
+      let aipOut := assetValue 1 i.pOut i.dOut
+      if aipOut = 0 then none else
+      if !(e.app b.app).lendAuc1 then none else
+      let outflow := Dec.truncateInt (Dec.quo o.selloff aipIn)
+      let inflow := Dec.truncateInt (Dec.quo o.selloff aipOut)
+      if outflow < 0 ∨ inflow < 0 then none else
+      some { w with
+        borrows := w.borrows.map (fun x => if x.id == b.id then { x with liquidated := true, amountIn := o.newAmountIn } else x)
+        poolBal := (w.poolBal.add b.assetIn (- (o.toAuction + o.toReserve))).add b.cAsset (- o.totalDeduction)
+        auctionBal := w.auctionBal.add b.assetIn o.toAuction
+        reserveBal := w.reserveBal.add b.assetIn o.toReserve
+        lockedId := w.lockedId + 1
+        lendAuctionId := w.lendAuctionId + 1
+        newLocked := w.newLocked ++ [{ id := w.lockedId + 1, orig := b.id, app := b.app, amountIn := o.newAmountIn, isBorrow := true,
+                                       debt := b.principal, target := inflow, fee := 0, bonus := 0, cr := r, collValue := o.selloff }]
+        newAuctions := w.newAuctions ++ [{ id := w.lendAuctionId + 1, locked := w.lockedId + 1, asset := b.assetIn, amount := outflow,
+                                           target := inflow }]
+        lendBal := w.lendBal.add b.lendId (- o.lendReduction)
+        totalLend := w.totalLend.add (statKey b.pool b.assetIn) (- o.lendReduction)
+        totalBorrowed := if sweep then w.totalBorrowed.add (statKey b.outPool b.assetOut) (- b.principal) else w.totalBorrowed }
+
+/-- one generation-1 borrow step. `sweep = true`: the wrapped body of `LiquidateBorrows` (a missing or flagged borrow is a
+successful no-op, the threshold is e-mode aware); `sweep = false`: `MsgLiquidateBorrow` (missing / flagged = error, the
+threshold ignores e-mode, and for a cross-pool borrow the error of the ratio computation is discarded: the ratio reads 0). -/
+def liquidateBorrowV1 (e : Env) (sweep : Bool) (id : Nat) (w : World) : Option World :=
+  match w.borrows.find? (·.id == id) with
+  | none => if sweep then some w else none
+  | some b =>
+    if b.liquidated then (if sweep then some w else none) else
+    if (e.app b.app).kill then none else
+    let thr := if sweep then borrowThreshold b else borrowThresholdMsgV1 b
+    match e.valueOf b.assetIn b.amountIn, e.valueOf b.assetOut b.debt with
+    | some tin, some tout =>
+      if tin = 0 then none else
+      if Dec.quo tout tin > thr then seizeBorrowV1 e sweep b (Dec.quo tout tin) w else some w
+    | _, _ => if !sweep && b.bridgedAmount != 0 then some w else none
+
+/-- generation-1 borrow pass: offset under `lendtypes.AppID` in the VAULT sweep's key space (defect 4 of the notes), every
+borrow of the range in its own `ApplyFuncIfNoError` -/
+def borrowPassV1 (e : Env) (batch : Nat) (w : World) : Outcome :=
+  let off := (w.offsets.get? lendAppId).getD 0
+  let ids := w.borrows.map (·.id)
+  let b := sweepBoundsI (ids.length : Int) (toGoInt off) (toGoInt batch)
+  match goSlice ids b.1 b.2 with
+  | none => .panic
+  | some sl =>
+    let w' := sl.foldl (fun acc id => applyIfNoError (liquidateBorrowV1 e true id) acc) w
+    .ok { w' with offsets := w'.offsets.set lendAppId b.2.toNat }
+
+/-- generation 1 BeginBlocker: vault sweep, then the borrow sweep -/
+def blockV1 (e : Env) (batch : Nat) (w : World) : Outcome :=
+  match appsLoopV1 e batch (e.apps.filter (·.wl1)) w with
+  | none => .panic
+  | some w1 => borrowPassV1 e batch w1
+
+/-- generation 1 `MsgLiquidateBorrow` -/
+def msgLiquidateBorrowV1 (e : Env) (id : Nat) (w : World) : Option World := liquidateBorrowV1 e false id w
+
+/-! ## generation 2: the remaining messages
+
+`MsgLiquidateInternalKeeper` records the sender as keeper on the locked vault (`IsInternalKeeper`); `MsgAppReserveFunds`
+(liquidate.go:549-601) and `MsgLiquidateExternalKeeper` (liquidate.go:681-720): an outside keeper brings collateral of his own
+and has it auctioned — no vault and no borrow is touched. -/
+
+/-- set `IsInternalKeeper` on the locked vaults appended after the first `n` -/
+def markViaMsg (n : Nat) (w : World) : World :=
+  { w with newLocked := w.newLocked.take n ++ (w.newLocked.drop n).map (fun l => { l with viaMsg := true }) }
+
+/-- `MsgLiquidateInternalKeeper` as delivered: the step of `msgLiquidateV2`, the new locked vault marked -/
+def msgLiquidateV2K (e : Env) (liqType id : Nat) (w : World) : Option World :=
+  (msgLiquidateV2 e liqType id w).map (markViaMsg w.newLocked.length)
+
+/-- `MsgAppReserveFunds`: asset and app must exist, the coin's denom must be the asset's (`denomOk`), the sender must hold
+the amount (`userBal`); funds go to the x/liquidationsV2 module account, the per-(app, asset) reserve grows. -/
+def msgAppReserveFunds (e : Env) (app asset : Nat) (denomOk : Bool) (amt userBal : Int) (w : World) : Option World :=
+  match e.asset? asset with
+  | none => none
+  | some _ =>
+    if !denomOk then none else
+    if !(e.apps.any (·.id == app)) then none else
+    if userBal < amt then none else
+    some { w with appReserve := w.appReserve.add (statKey app asset) amt
+                  liqBal := if amt = 0 then w.liqBal else w.liqBal.add asset amt }
+
+/-- `MsgLiquidateExternalKeeper`: guards in code order — auction params, both assets, reserve funds of (app, debt asset)
+positive, the sender's collateral, then `CreateLockedVault` with Dutch type: whitelisting with Dutch activated, both oracle
+records active. Effect: exactly `collAmt` sender → auction account, one locked vault (original id 0) and one Dutch auction;
+fee / bonus from the x/auctionsV2 parameters; NO vault, borrow, vault custody or pool custody is touched. -/
+def msgLiquidateExternalV2 (e : Env) (app collAsset debtAsset : Nat) (collAmt debtAmt userBal : Int) (w : World) : Option World :=
+  match e.aucParams2 with
+  | none => none
+  | some (pen, bon) =>
+    match e.asset? collAsset, e.asset? debtAsset with
+    | some _, some _ =>
+      if w.appReserve.get (statKey app debtAsset) ≤ 0 then none else
+      if collAmt < 0 ∨ debtAmt < 0 then none else
+      if userBal < collAmt then none else
+      let a := e.app app
+      if !a.wl2 || !a.dutch2 then none else
+      if !(e.priceActive collAsset && e.priceActive debtAsset) then none else
+      let fee := Dec.truncateInt (Dec.mul (Dec.ofInt debtAmt) pen)
+      let bonus := Dec.truncateInt (Dec.mul (Dec.ofInt debtAmt) bon)
+      some { w with
+        auctionBal := if collAmt = 0 then w.auctionBal else w.auctionBal.add collAsset collAmt
+        lockedId := w.lockedId + 1
+        auctionId := w.auctionId + 1
+        newLocked := w.newLocked ++ [{ id := w.lockedId + 1, orig := 0, app := app, amountIn := collAmt, isBorrow := false,
+                                       debt := debtAmt, target := debtAmt + fee, fee := fee, bonus := bonus, cr := 0, collValue := collAmt }]
+        newAuctions := w.newAuctions ++ [{ id := w.auctionId + 1, locked := w.lockedId + 1, asset := collAsset, amount := collAmt,
+                                           target := debtAmt + fee }] }
+    | _, _ => none
 
 /-! ## the abstract sweep used for the liveness theorems
 
